@@ -97,21 +97,22 @@ def tour(pid, every_path):
     import gzip
     dg = tour_digest()
     d = None
-    for path in (os.path.join(vlib.SPEC, "tour", "MCRtrSocketCover.json.gz"),
-                 os.path.join(vlib.VERIF, "build", "cache", "tour-%s.json.gz" % dg)):
+    committed = os.path.join(vlib.SPEC, "tour", "MCRtrSocketCover.json.gz")
+    cached = os.path.join(vlib.VERIF, "build", "cache", "tour-%s.json.gz" % dg)
+    for path in (cached, committed):
         if os.path.exists(path):
             try:
                 with gzip.open(path, "rt") as f:
                     dd = json.load(f)
-                if dd.get("digest") == dg:
-                    d, src = dd, os.path.relpath(path, vlib.VERIF)
-                    break
+                # a tour made from an earlier version of the spec files is still a set of legal inputs for the client (the
+                # trace specification judges what is observed, whatever the script): it is used, and reported as stale
+                d, src = dd, os.path.relpath(path, vlib.VERIF) + ("" if dd.get("digest") == dg else " (made from earlier spec files: run tools/gen_tour.py)")
+                break
             except (ValueError, OSError, EOFError):
                 pass
     if d is None:
         vlib.mkdir(os.path.join(vlib.VERIF, "build", "cache"))
-        path = os.path.join(vlib.VERIF, "build", "cache", "tour-%s.json.gz" % dg)
-        d, src = tour_generate(pid + "-tour", path), "regenerated (spec changed since spec/tour was committed)"
+        d, src = tour_generate(pid + "-tour", cached), "generated (no committed tour found)"
     by = {}
     for it in d["items"]:
         by.setdefault(vlib.digest(it["cls"]), []).append(it["evs"])
